@@ -286,6 +286,17 @@ def collect(hs, script, impl, model, judge, hangs, merr):
             if res in ("panic", "hang"):
                 stop = True         # after a panic/hang only the judge's verdict counts
         rec["first_bad"] = first_bad
+        # distribution of what was run: operation kinds and result classes of the implementation (for the evidence)
+        hist_o, hist_r = {}, {}
+        for j, op in enumerate(ops):
+            if j >= len(ri):
+                break
+            ko2 = op.split()[0]
+            hist_o[ko2] = hist_o.get(ko2, 0) + 1
+            r0 = ri[j][2:].split(" | ")[0].split()
+            rc = (r0[0] + (" " + r0[1] if r0[0] == "err" and len(r0) > 1 else "")) if r0 else "?"
+            hist_r[rc] = hist_r.get(rc, 0) + 1
+        rec["hist_ops"], rec["hist_res"] = hist_o, hist_r
         rec["classes"] = {}
         for l in rj:
             m = re.match(r"J (\d+) class (\d+)", l)
@@ -747,6 +758,10 @@ def check(pid, tier, seed):
         "histories_undetermined": sum(1 for r in recs if r["undet"]),
         "literal_file_checks": sum(r.get("literal_checked", 0) for r in recs),
         "literal_read_checks": sum(r.get("literal_reads", 0) for r in recs),
+        "operations_by_kind": {k: sum(r.get("hist_ops", {}).get(k, 0) for r in recs) for k in sorted({k for r in recs for k in r.get("hist_ops", {})})},
+        "results_by_class": {k: sum(r.get("hist_res", {}).get(k, 0) for r in recs) for k in sorted({k for r in recs for k in r.get("hist_res", {})})},
+        "history_lengths": {"min": min([r["nops"] for r in recs] or [0]), "max": max([r["nops"] for r in recs] or [0]),
+                            "mean": round(sum(r["nops"] for r in recs) / max(1, len(recs)), 1)},
         "generator_errors": list(gen.GEN_ERRORS)[:20],
         "correspondence_disagreements": len(disagreements),
         "known_findings_hit": {k: len(v) for k, v in known_hits.items()},
